@@ -166,6 +166,10 @@ fn part_a(rng: &mut Rng, n: u64, out: &mut Out) {
                 let x = rng.range(start, last_number - 1) as usize;
                 match rng.below(3) { 0 => ds.push(tds[x].clone()), 1 => ds.push(&tds[x] + 1u32), _ => ds.push(&tds[x] - 1u32) }
             }
+            // ... and exactly the total difficulty of the block in front of the last-N section (the last place a sample can sit)
+            if rng.chance(1, 3) {
+                if let Some(x) = (start..last_number).find(|x| tds[*x as usize] >= boundary) { if x > start + 1 { ds.push(tds[x as usize - 1].clone()); } }
+            }
             ds.sort(); ds.dedup();
             let ds: Vec<U256> = ds.into_iter().filter(|d| d < &boundary && d > lo).collect();
             let b_block = (start..last_number).find(|x| tds[*x as usize] >= boundary).unwrap_or(last_number - last_n).min(last_number - last_n);
@@ -203,6 +207,7 @@ fn part_a(rng: &mut Rng, n: u64, out: &mut Out) {
                 10 => { if let Some(x) = hs2.last().map(|h| h.num + 1) { if (x as usize) < tds.len() { hs2.push(hdr(x)); } } "append" }
                 11 => { hs2.clear(); "empty" }
                 12 if start > 1 => { let first = start.saturating_sub(rng.range(1, last_n + 2)).max(rng.range(0, 1)); let mut v: Vec<MH> = (first..start).map(|x| hdr(x)).collect(); v.extend(hs2.iter().filter(|h| h.num >= start).cloned()); hs2 = v; "reorg-section" }
+                14 | 15 if !sampled.is_empty() => { hs2.remove(reorg.len() + sampled.len() - 1); "drop-last-sample" }
                 13 if !sampled.is_empty() => {
                     // replace a sampled header by its child or its parent
                     let k = reorg.len() + rng.below(sampled.len() as u64) as usize;
@@ -445,17 +450,22 @@ pub(crate) fn handler_case(out: &mut Out, id: &str, tags: &[&str], c: &mut Clien
         Val::l(vec![Val::n(code), obs_prove(&after), rq, sent, obs_store(c)])
     };
     let changed = before_trusted != after_trusted;
-    // the remembered headers of an accepted proof form one chain ending at the proven header's parent
-    let discontinuous = after.as_ref().and_then(|s| s.get_prove_state()).map(|ps| {
-        let hs = ps.get_last_headers();
-        hs.windows(2).any(|w| w[1].parent_hash() != w[0].hash() || w[1].number() != w[0].number() + 1)
-            || hs.last().map(|h| ps.get_last_header().header().parent_hash() != h.hash()).unwrap_or(false)
-            || ps.get_reorg_last_headers().windows(2).any(|w| w[1].parent_hash() != w[0].hash())
-    }).unwrap_or(false);
+    // an accepted response ends with a run of headers, each the parent of the next and the last one the parent of the proven
+    // header, at least last-N long (or covering everything from the requested start number)
+    let discontinuous = {
+        let hv: Vec<HeaderView> = vhs.iter().map(|h| h.header().clone()).collect();
+        let start_number: u64 = before.as_ref().and_then(|s| s.get_prove_request()).map(|r| r.get_content().start_number().unpack()).unwrap_or(0);
+        let ends_ok = hv.last().map(|h| last_vh.header().parent_hash() == h.hash()).unwrap_or(false);
+        let mut run = if hv.is_empty() { 0 } else { 1 };
+        for w in hv.windows(2).rev() { if w[1].parent_hash() == w[0].hash() && w[1].number() == w[0].number() + 1 { run += 1; } else { break; } }
+        let new_headers = hv.iter().filter(|h| h.number() >= start_number).count() as u64;
+        !ends_ok || (run as u64) < c.lc.last_n_blocks().min(new_headers)
+    };
     let oracle = if o.panicked {
         Err("[C10-handler-panic] SendLastStateProof handler panicked".to_string())
     } else if changed && discontinuous {
-        Err("[C01-accepted-discontinuous] the accepted proof leaves remembered headers that do not form one chain up to the proven header".to_string())
+        Err(format!("[C01-accepted-discontinuous] an accepted response does not end with last-N headers chained up to the proven header (returned numbers {:?}, proven {})",
+            vhs.iter().map(|h| h.header().number()).collect::<Vec<_>>(), last_vh.header().number()))
     } else if o.ban.is_some() && before_fp != state_fingerprint(c, peer) {
         Err("[C01-reject-changed-state] the response was rejected (peer banned) but state changed".to_string())
     } else if changed && !honest && !identical_to_honest {
